@@ -637,6 +637,11 @@ fn index_expr(r: &mut StdRng, depth: usize, want_bool: bool) -> Value {
         4 => json!({"k": "neg", "a": index_expr(r, depth - 1, false)}),
         5 => json!({"k": "if", "c": index_expr(r, depth - 1, true), "a": index_expr(r, depth - 1, false), "b": index_expr(r, depth - 1, false)}),
         6 => json!({"k": "app", "a": var(3), "b": index_expr(r, depth - 1, false)}), // g : int -> int
+        7 if depth >= 2 => {
+            // a definition group inside the index: `(a : int = E; a + 1)`; E lives under the group's binder
+            let e = crate::c_gen::raise(&index_expr(r, depth - 2, false));
+            json!({"k": "let", "defs": [{"n": "?", "ann": {"k": "int"}, "def": e}], "b": {"k": "bin", "op": "sum", "a": var(0), "b": lit(1)}})
+        }
         _ => index_expr(r, 0, false),
     }
 }
@@ -662,6 +667,14 @@ fn mutate_index(r: &mut StdRng, e: &Value) -> Value {
             n
         }
         (_, "if") => json!({"k": "if", "c": node["c"], "a": node["b"], "b": node["a"]}),
+        (_, "let") => {
+            // one more definition after a shared prefix (same body shape): must not be judged equal
+            let mut n = node.clone();
+            let d0 = raise_in_group(&node["defs"][0]);
+            n["defs"] = json!([d0, {"n": "?", "ann": {"k": "int"}, "def": lit(2)}]);
+            n["b"] = json!({"k": "bin", "op": "sum", "a": {"k": "var", "i": 0, "n": "?"}, "b": lit(1)});
+            n
+        }
         (_, "var") => json!({"k": "var", "i": (node["i"].as_u64().unwrap() + 1) % 2, "n": "?"}),
         (_, "lit") => lit(r.gen_range(0..3)),
         (_, "neg") => node["a"].clone(),
@@ -669,6 +682,13 @@ fn mutate_index(r: &mut StdRng, e: &Value) -> Value {
     };
     *node = new;
     out
+}
+
+// a definition of a 1-group moved into a 2-group as its first member: its own index 0 becomes 1, outer indices move by one
+fn raise_in_group(d: &Value) -> Value {
+    let t = tj::from_json(&d["def"]);
+    let up = crate::de_bruijn::unsigned_shift(&t, 0, 1);
+    json!({"n": "?", "ann": d["ann"], "def": tj::tj_with(&up, &mut tj::HoleIds::default(), false)})
 }
 
 pub fn dependent_program(r: &mut StdRng) -> String {
